@@ -32,6 +32,11 @@ CLAIMS = {
         note="Trusted: Coq kernel/vm_compute; file system model; the visit lists are read from the real code each run. The documented output_path rule is validated on the universe's export_to forms (absent, directory, file, nested, ../).",
         technique="Coq proof over the export state machine + before/after snapshot correspondence on a real directory",
         ref="DESIGN.md section 5 C11, section 10"),
+    "C03": dict(
+        text="Coq theorems, for all environments of definitions, attribute combinations, nesting depths and type arguments: every type name that a generated declaration / inline form / flattened form refers to is the identifier of an exportable type handed to the visitor by the generated visit_dependencies() (C03_used_names_are_dependencies, C03_inline_names_are_dependencies, C03_name_refs: induction over the type grammar, case analysis of the derive layer, induction on generator fuel with gen and deps side by side); and for ANY dependency list the import statements generate_imports builds are sound (each imported name is a non-self dependency that is not in the same file, under exactly the specifier import_path computes for its file), name every name in one place only, and are complete up to equal names (C03_imports). With C08 (the specifier resolves to that file) and C11 (export_all writes the file of every visited exportable type). Tied to the code on every run: model dependencies()/export_to_string() vs real byte for byte on the corpus, and every exportable corpus type is exported with export_all_to into a real directory whose every file is read back by an independent reader: used names = imported + declared + parameters, every import resolves to a written file declaring the name, no self-import, no duplicates, no unused import.",
+        note="Trusted: Coq kernel/vm_compute; transcription of deps.rs call sites and of generate_imports (pinned by the corpus correspondence); the Python reader of real files (tools/tsmini.py). Partial: `imports nothing it does not use` is NOT proved (it is false: known class inlined_generic_default) — it is decided by the oracle on the real trees only; the composition of the dependency-level and import-level theorems across the dummy renaming of WithoutGenerics is by correspondence. `type = \"..\"` overrides are opaque.",
+        technique="Coq proof (induction over the Rust type grammar + derive case analysis + fuel induction; fold invariants over sorted association lists) + compiled corpus correspondence + closed-module oracle on real export_all_to trees",
+        ref="DESIGN.md section 5 C03, section 10"),
     "C07": dict(
         text="Coq theorems about the derive model (Model/Gen.v: open-recursion transcription of macros/src/types/*.rs, lib.rs generate_decl_fn/format_generics and the container impls of ts-rs/src/lib.rs) for ALL environments of definitions, all nesting depths and all type arguments: the body of a declaration mentions only the parameters its header binds, the header lists the definition's type parameters in order with the names of their defaults (C07_scoped, C07_params); a reference to an instantiation is the identifier applied to the arguments' names (C07_name); and the generic declaration's body instantiated at the arguments IS the inline form at those arguments — parameters in name position replaced by the arguments' names, in flattened position by their flattened forms, nothing else changed (C07_instantiate, by induction over the type grammar and the fuel of the generator). Tied to the code on every run by the corpus run: generated definitions compiled against /repo, model text vs real name()/inline()/decl()/decl_concrete() byte for byte at 3 instantiations of every generic definition, plus oracles on the real texts (decl identical across instantiations; expansion computed by Coq equals the real decl_concrete()).",
         note="Trusted: Coq kernel/vm_compute; the hand transcription of the derive (pinned by the corpus correspondence, sampling); rustc. decl() taking no arguments is true of the model by construction and of the implementation by the correspondence only. Known classes (known_findings.json): a parameter under #[ts(inline)] makes decl() panic; optional/optional_fields on a bare parameter. Const parameters, lifetimes and #[ts(concrete)] are not in the generated fragment.",
